@@ -2,17 +2,19 @@ import MayVerif.Proof.Io.TT
 namespace MayVerif.Io
 
 set_option maxHeartbeats 16000000 in
-theorem inv5_wstep (st st' : St) (w : Wk) (pc : WPc) (e : Env) (h : Inv1 st) (h3 : Inv3 st) (h5 : Inv5 st)
+theorem inv5_wstep (st st' : St) (w : Wk) (pc : WPc) (e : Env) (hc : Cfg st) (h : Inv1 st) (h3 : Inv3 st) (h7 : Inv7 st) (h5 : Inv5 st)
     (hpc : st.wpc w = pc) (hs : wstep st w pc e = some st') : Inv5 st' := by
   prep5
-  have hlw := lw w; have hww := ww w; have hhw := hw w
+  have hlw := lw w; have hww := ww w; have hhw := hw w; have hlk2 := lk2 w; have hm1 := m1 w; have hft := ft w
   cases pc with
-  | idle => cases e <;> crunch5
-  | sTake s => crunch5
-  | sDis s c => simp [hpc, wHolds] at hlw hww hhw; crunch5
-  | fOr s t => crunch5
-  | fTake s t => crunch5
-  | xio c => crunch5
-  | xtake s => crunch5
+  | idle => cases e <;> c5
+  | sTake s => c5
+  | sDis s c => simp [hpc, wHolds] at hlw hww hhw; c5
+  | fChk s t => c5
+  | fOr s t => simp [hpc, fCrit] at hlk2 hm1; c5
+  | fTake s t => simp [hpc, fCrit] at hlk2 hm1 hft; c5
+  | xio c => c5
+  | xtake s => c5
+  | xDis s c => simp [hpc, wHolds] at hlw hww hhw; c5
 
 end MayVerif.Io
